@@ -77,7 +77,7 @@ ASSUMPTIONS = ['the destination names the documented rule gives (name, or name +
                'name) are distinct and none of them is already in the destination (else no destination can hold the join: '
                'ValueError on every path, checked); none of them is the name of a field the call creates for itself '
                '(else known finding F-C02j); the destination holds no field called _a_map/_b_map/_left_map/_right_map when '
-               'the streamed path is taken (else known finding F-C02k)',
+               'the streamed path is taken (F-C02k, repaired)',
                'key values are finite (no NaN: no order, so no truthful ordered hint), floats are multiples of 2^-60 below 1e305, '
                'fixed-string keys at most 8 bytes; the two key columns of a pair are both numeric or both fixed strings',
                'no two keys of opposite sides of an int64/uint64 or integer/float key pair have the same binary64 value '
@@ -943,13 +943,13 @@ def known(case, impl, model, spec, mode):
         # F-C02k: the streamed path creates '_a_map' / '_b_map' / '_left_map' / '_right_map' in the destination and then
         # looks the maps up BY NAME: a destination that already holds a field of one of these names makes the hinted call
         # raise, or (as found) take that field for a join map
-        if set(pre) & set(AUX + TRANSIENT) and is_ordered(case) and not case.get('chain'):
-            return 'F-C02k'
+        # (F-C02k is repaired in /repo by 76b556a: the silent use of such a field as a join map is gone; what is left in that
+        # region is the ValueError 'already exists' when the call has to create a field of that name itself — F-C02j below)
         # F-C02j: a payload field whose documented destination name is a name merge uses for a field of its own
         # ('_left_map' / '_right_map' on the streamed path, 'valid_l' / 'valid_r' on the pandas path when a side has
         # unmatched rows): the call raises ValueError (the model, statement by statement, says so too)
         if impl == 'EXC:ValueError' and model == 'EXC:ValueError' and not names_not_distinct(case, spec) \
-                and (set(_spec_names(spec)) | set(pre)) & set(INTERNAL):
+                and ((set(_spec_names(spec)) | set(pre)) & set(INTERNAL) or set(pre) & set(TRANSIENT)):
             return 'F-C02j'
     # F-C02i: mixed int64/uint64/float key columns are compared as binary64; suppressed only where two keys of opposite
     # sides collapse AND (integer/float pair on the pandas path, where the conversion is a cast of both columns that the
@@ -1614,13 +1614,8 @@ def _gen_names(tier, rng):
             for kp in (range(len(_NAME_KEYS)) if not quick else [[0, 2, 4, 6][cnt % 4]]):
                 L, R = _NAME_KEYS[kp]
                 for h in _hint_sets(how, L, R, quick, cnt):
-                    if h[0] and h[2] and how in ('left', 'right') and (h[3] if how == 'left' else h[1]) and \
-                            pre_name in ('_a_map', '_left_map' if how == 'left' else '_right_map'):
-                        # F-C02k where the code as found takes the field that was already there for a join map (silent):
-                        # witnesses live in corpus/C02/VC02-names.json; the cross-cutting checks C10/C11 that re-run this
-                        # generator compare with the model (= the repaired code, work/VC02/fix-F-C02k.diff) only
-                        cnt += 1
-                        continue
+                    # (incl. the region of F-C02k, repaired by /repo 76b556a: a destination that already holds '_a_map' /
+                    # '_left_map' / '_right_map' while the call does not write that map itself)
                     fl, fr = _named_frames(L, R, None, None, 'i', cnt)
                     c = {'how': how, 'hints': h, 'L': fl, 'R': fr, 'lf': None, 'rf': None,
                          'pre': [[pre_name, _map_like(3 + cnt % 2, min(len(L), len(R)), cnt)]]}
